@@ -154,9 +154,10 @@ JudgeMsg(st0, m, src, via, tag, seg) ==
         fired == ToSet(w.fired)
         Excused(r) == \E p \in w.kills : p[2] = r /\ ~(p[1] \in ToSet(F) /\ SameKey(st0, p[1], r) /\ Pos(F, r) < Pos(F, p[1]))
         touched == {p[2] : p \in w.kills} \cup w.enabled      \* re-registered or removed meanwhile: no place in the order
-        inF == SelectSeq(w.fired, LAMBDA x : x \in ToSet(F) /\ x \notin touched)
+        fs == w.fired
+        inF == {n \in 1..Len(fs) : fs[n] \in ToSet(F) /\ fs[n] \notin touched}
         end == IF \E r \in ToSet(F) : r \notin fired /\ ~Excused(r) THEN "ShouldFire"
-               ELSE IF \E i, j \in 1..Len(inF) : i < j /\ SameKey(st0, inF[i], inF[j]) /\ Pos(F, inF[i]) > Pos(F, inF[j])
+               ELSE IF \E i, j \in inF : i < j /\ SameKey(st0, fs[i], fs[j]) /\ Pos(F, fs[i]) > Pos(F, fs[j])
                     THEN "OrderIsRegistrationOrder"
                ELSE "ok" IN
     [st |-> w.st, why |-> First(w.why, end), raised |-> w.raised, acted |-> w.acted]
